@@ -290,6 +290,17 @@ class DictV(V):
 
 
 @dataclass(eq=False)
+class DictCompV(V):
+    """{k: v for x in xs if c}: iterated lazily (keys / values / items), lookups are unknown."""
+
+    node: ast.DictComp
+    fr: "Frame"
+    env: dict
+    mode: str = "keys"  # keys | values | items
+    taint: frozenset = frozenset({"?"})
+
+
+@dataclass(eq=False)
 class EnumV(V):
     """enumerate(collection)."""
 
@@ -373,6 +384,8 @@ def key(v: V) -> str:
         return "{" + show(v.f) + "}"
     if isinstance(v, DictV):
         return v.text
+    if isinstance(v, DictCompV):
+        return f"{{dict@{v.node.lineno}}}.{v.mode}"
     if isinstance(v, AltV):
         return "alt(" + "|".join(key(x) for _g, x in v.alts) + ")"
     if isinstance(v, Builtin):
@@ -403,7 +416,7 @@ def taint_of(v: V) -> frozenset:
         return out
     if isinstance(v, MapV):
         return taint_of(v.fn) | taint_of(v.src)
-    if isinstance(v, DictV):
+    if isinstance(v, (DictV, DictCompV)):
         return v.taint
     if isinstance(v, PartialV):
         out = taint_of(v.fn)
@@ -844,7 +857,7 @@ class Interp:
     def join_ite(self, c: Formula, v1: V, v2: V) -> V:
         if v1 is v2:
             return v1
-        if isinstance(v1, AltV) or isinstance(v2, AltV) or any(isinstance(x, (Fn, Obj, ClassRef, Opaque, BoundAPI, SuperRef, MapV, EnumV, DictV)) for x in (v1, v2)):
+        if isinstance(v1, AltV) or isinstance(v2, AltV) or any(isinstance(x, (Fn, Obj, ClassRef, Opaque, BoundAPI, SuperRef, MapV, EnumV, DictV, DictCompV, PartialV)) for x in (v1, v2)):
             if not (isinstance(v1, Coll) or isinstance(v2, Coll)):
                 return self.mk_alt([(c, v1), (f_not(c), v2)])
         if isinstance(v1, Coll) or isinstance(v2, Coll):
@@ -891,6 +904,15 @@ class Interp:
             return runs
         if isinstance(src, EnumV):
             return [(_Mapped(None, value), g, lp, ckey) for value, g, lp, ckey in self.iteration_plan(fr, src.src, node)]
+        if isinstance(src, DictCompV):
+            gen = src.node.generators[0]
+            saved_env = src.fr.env
+            src.fr.env = dict(src.env)
+            try:
+                inner_src = self.ev(src.fr, gen.iter)
+            finally:
+                src.fr.env = saved_env
+            return [(_Mapped(src, value), g, lp, ckey) for value, g, lp, ckey in self.iteration_plan(fr, inner_src, node)]
         c = self.as_coll(src)
         runs: list = []
         generic: list[Part] = []
@@ -1012,7 +1034,24 @@ class Interp:
         if isinstance(value, _Mapped):
             inner = self.loop_value(fr, value.inner, lp, node)
             if value.fn is None:  # enumerate
-                return TupleV([Unknown(f"index@{getattr(node, 'lineno', 0)}", maybe_none=False), inner])
+                idx = Unknown(f"index@{getattr(node, 'lineno', 0)}", maybe_none=False)
+                idx._elem = inner  # type: ignore[attr-defined]
+                return TupleV([idx, inner])
+            if isinstance(value.fn, DictCompV):
+                d = value.fn
+                gen = d.node.generators[0]
+                saved_env = d.fr.env
+                d.fr.env = dict(d.env)
+                try:
+                    self.assign(d.fr, gen.target, inner, d.node)
+                    conds = [self.bf(d.fr, c) for c in gen.ifs]
+                    if conds:
+                        self.frames[-1] = conj([self.frames[-1], *conds])  # the run's own guard frame
+                    k = self.ev(d.fr, d.node.key) if d.mode in ("keys", "items") else None
+                    v = self.ev(d.fr, d.node.value) if d.mode in ("values", "items") else None
+                finally:
+                    d.fr.env = saved_env
+                return k if d.mode == "keys" else (v if d.mode == "values" else TupleV([k, v]))
             return self.apply(fr, value.fn, [inner], node)
         if value is None:
             assert lp is not None
@@ -1197,10 +1236,10 @@ class Interp:
             return Coll([Part("base", TRUE, base="src:enumerate(..)", items=tuple(sorted(taint_of(v))))], label="enumerate(..)")
         if isinstance(v, DictV):
             return Coll([Part("base", TRUE, base="src:" + v.text, items=tuple(sorted(v.taint)))], label=v.text)
-        if isinstance(v, MapV):
+        if isinstance(v, (MapV, DictCompV)):
             c = getattr(v, "_coll", None)
             if c is None:
-                c = Coll(label="map(..)")
+                c = Coll(label="map(..)" if isinstance(v, MapV) else key(v))
                 fr = Frame(self.entry, {}, len(self.frames))
                 node = ast.Call(func=ast.Name(id="map", ctx=ast.Load()), args=[], keywords=[])
                 for value, g, lp, _ckey in self.iteration_plan(fr, v, node):
@@ -1503,6 +1542,8 @@ class Interp:
         if isinstance(e, (ast.ListComp, ast.SetComp, ast.GeneratorExp)):
             return self.ev_comp(fr, e)
         if isinstance(e, ast.DictComp):
+            if len(e.generators) == 1:
+                return DictCompV(e, fr, dict(fr.env))
             self.note(f"{fr.fi.qualname}: dictionary `{norm(e, 40)}` not modelled (what is read from it is unknown)")
             return DictV(f"{{dict@{e.lineno}}}", frozenset({"?"}))
         if isinstance(e, ast.Dict):
@@ -1537,15 +1578,23 @@ class Interp:
             if isinstance(v, Coll):
                 if isinstance(e.slice, ast.Slice):
                     return self.copy_of(v)
+                sl = self.ev(fr, e.slice)
+                el = getattr(sl, "_elem", None)
+                r = root_elem(el) if el is not None else None
+                if isinstance(el, Elem) and r is not None and r.loop.active and r.loop.src.parts == v.parts:
+                    return el  # xs[i] inside `for i, x in enumerate(xs)`
                 self.note(f"{fr.fi.qualname}: element selected from a collection by index ({norm(e, 40)})")
                 return Unknown(f"{key(v)}[..]")
-            if isinstance(v, DictV):
+            if isinstance(v, (DictV, DictCompV)):
                 sl = self.ev(fr, e.slice)
-                return Unknown(f"{v.text}[{key(sl)}]", v.taint | taint_of(sl))
+                return Unknown(f"{key(v)}[{key(sl)}]", v.taint | taint_of(sl))
             if isinstance(v, Unknown):
                 if isinstance(e.slice, ast.Slice):
                     return Unknown(f"{v.text}[{norm(e.slice, 20)}]", v.taint, v.maybe_none, v.patterns)
                 sl = self.ev(fr, e.slice)
+                el = getattr(sl, "_elem", None)
+                if isinstance(el, Elem) and el.loop.active and el.loop.src.parts == self.as_coll(v).parts:
+                    return el  # xs[i] inside `for i, x in enumerate(xs)`
                 return Unknown(f"{v.text}[{key(sl)}]", v.taint | taint_of(sl))
             sl = self.ev(fr, e.slice) if not isinstance(e.slice, ast.Slice) else Const(norm(e.slice, 20))
             return Unknown(f"{key(v)}[{key(sl)}]", taint_of(v) | taint_of(sl), False)
@@ -1868,7 +1917,7 @@ class Interp:
     def _freeze(self, v: V) -> V:
         if isinstance(v, Coll):
             return v.snapshot()
-        if isinstance(v, (Unknown, AltV, TupleV, MapV, DictV, EnumV)):
+        if isinstance(v, (Unknown, AltV, TupleV, MapV, DictV, EnumV, DictCompV)):
             return self.as_coll(v).snapshot()
         return v
 
@@ -2001,6 +2050,10 @@ class Interp:
             if "PARSED" in recv.taint or "CONVERTED" in recv.taint:
                 return Unknown(f"{recv.text}.{attr}(..)", t)
             return Unknown(f"{recv.text}.{attr}({','.join(key(a) for a in args)})", t, False if attr in self.STR_PRESERVING else None)
+        if isinstance(recv, DictCompV):
+            if attr in ("items", "values", "keys") and not args:
+                return DictCompV(recv.node, recv.fr, recv.env, attr)
+            return Unknown(f"{key(recv)}.{attr}(..)", t | recv.taint)
         if isinstance(recv, DictV):
             if attr in ("setdefault", "update", "__setitem__"):
                 for a in [*args, *kwargs.values()]:
